@@ -51,16 +51,20 @@ OPS = ["attempt", "wait", "unlock", "confirm", "peek", "break", "attempt_unlock"
 
 
 def generate(rng, tier):
+    """Swarm: a third of the runs are the 'stale lock' template (a holder that died
+    holding the lock before anyone else starts, several contenders that begin by trying
+    to take it, few pre-emptions placed early), the rest are unconstrained scripts."""
     n = rng.choice([2, 3, 3, 3, 4, 4])
     names = ["A", "B", "C", "D"][:n]
-    steal = rng.random() < 0.4
+    template = rng.random() < 0.35
+    steal = rng.random() < (0.7 if template else 0.4)
     weights = {op: rng.choice([0, 1, 1, 2, 3]) for op in OPS}
     weights["attempt"] = max(weights["attempt"], 1)
     if rng.random() < 0.7:
         weights["peek"] = max(weights["peek"], 2)
         weights["break"] = max(weights["break"], 2)
     actors = {}
-    dead_holder = rng.random() < 0.6
+    dead_holder = template or rng.random() < 0.5
     for i, name in enumerate(names):
         if i == 0 and dead_holder:
             actors[name] = [["attempt"], ["die"]]
@@ -74,13 +78,21 @@ def generate(rng, tier):
                 script.append([op, rng.choice([0, 1, 3, 10])])
             else:
                 script.append([op])
+        if template:
+            script[0] = rng.choice([["attempt"], ["attempt"], ["wait", rng.choice([0, 1, 3])], ["peek"]])
+            if script[0] == ["peek"]:
+                script.insert(1, ["break"])
         if rng.random() < 0.15:
             script.insert(rng.randrange(len(script) + 1), ["die"])
         actors[name] = script
     plan = {"actors": actors, "steal_dead": steal, "policy": rng.choice(["random", "random", "pct", "pct", "rr"])}
+    if template:
+        plan["dead_first"] = names[0]
+        plan["policy"] = rng.choice(["pct", "pct", "pct", "random"])
     if plan["policy"] == "pct":
-        plan["preempt_at"] = sorted(rng.sample(range(1, 120), rng.randint(1, 5)))
-    if rng.random() < 0.15:
+        hi = 45 if template else 120
+        plan["preempt_at"] = sorted(rng.sample(range(1, hi), rng.randint(1, 3 if template else 5)))
+    if rng.random() < 0.15 and not template:
         plan["foreign"] = True
     if rng.random() < 0.2:
         victim = rng.choice(names)
@@ -305,9 +317,16 @@ def execute(sim, plan):
                 if not isinstance(e, (errors.BzrError, OSError)) and type(e).__module__.split(".")[0] not in ("dromedary",):
                     raise
 
-    for name, script in scripts.items():
-        sim.spawn(name, (lambda n=name, s=script: run_script(n, s)))
+    first = plan.get("dead_first")
     try:
+        if first in scripts:
+            # the stale holder took the lock and died before anyone else started
+            sim.spawn(first, (lambda n=first, s=scripts[first]: run_script(n, s)))
+            sim.run_actors()
+            sim.steps = 0  # pre-emption points count from the start of the contention
+        for name, script in scripts.items():
+            if name != first:
+                sim.spawn(name, (lambda n=name, s=script: run_script(n, s)))
         sim.run_actors()
     finally:
         tokens.close()
